@@ -206,6 +206,13 @@ Qed.
 Lemma isCanonicalDecimal_ok v s : isCanonicalDecimal v s = Ok (bytes_eqb (dec v) s).
 Proof. unfold isCanonicalDecimal. rewrite format_uint_dec. reflexivity. Qed.
 
+Lemma dec_value_acc_cons c s acc :
+  dec_value_acc (c :: s) acc =
+  match digit_of c with Some d => dec_value_acc s (10 * acc + d) | None => None end.
+Proof. reflexivity. Qed.
+Lemma dec_value_acc_nil acc : dec_value_acc [] acc = Some acc.
+Proof. reflexivity. Qed.
+
 (* uniqueness of the canonical numeral: validates the spec's [dec] against [is_dec] *)
 Lemma dec_value_acc_ge s : forall acc v, dec_value_acc s acc = Some v -> acc <= v.
 Proof.
@@ -229,16 +236,17 @@ Proof.
   assert (Hv' : dec_value_acc (s ++ [c]) 0 = Some n) by (destruct (s ++ [c]); [discriminate|exact Hv]).
   clear Hv. rewrite dec_value_acc_app in Hv'.
   destruct (dec_value_acc s 0) as [v|] eqn:Ev; [|discriminate].
-  simpl in Hv'. destruct (digit_of c) as [d|] eqn:Ed; [|discriminate].
-  injection Hv' as <-. apply digit_of_inv in Ed. destruct Ed as [Hd ->].
+  rewrite dec_value_acc_cons in Hv'. destruct (digit_of c) as [d|] eqn:Ed; [|discriminate].
+  rewrite dec_value_acc_nil in Hv'. injection Hv' as <-. apply digit_of_inv in Ed. destruct Ed as [Hd ->].
   destruct s as [|c0 s].
-  - simpl in Ev. injection Ev as <-. simpl. rewrite dec_small by lia. f_equal. f_equal. lia.
+  - rewrite dec_value_acc_nil in Ev. injection Ev as <-.
+    replace (10 * 0 + d) with d by lia. rewrite dec_small by exact Hd. reflexivity.
   - (* at least two characters: the head is not '0', so v >= 1 *)
     assert (Hc0 : b2n c0 <> 48).
     { simpl in Hz. destruct (s ++ [dch d]) eqn:E; [destruct s; discriminate|].
       apply negb_true_iff in Hz. apply N.eqb_neq in Hz. exact Hz. }
     assert (Hv1 : 1 <= v).
-    { simpl in Ev. destruct (digit_of c0) as [d0|] eqn:Ed0; [|discriminate].
+    { rewrite dec_value_acc_cons in Ev. destruct (digit_of c0) as [d0|] eqn:Ed0; [|discriminate].
       apply dec_value_acc_ge in Ev. apply digit_of_inv in Ed0. destruct Ed0 as [Hd0 ->].
       rewrite b2n_dch in Hc0 by exact Hd0. lia. }
     assert (Hs : (c0 :: s) = dec v).
